@@ -432,11 +432,20 @@ Proof.
   cbn [app combine]. rewrite IH by lia. reflexivity.
 Qed.
 
+Lemma posts_lookup (f : fwd NR) (specs : list (lspec * vec)) (xl y : list R) :
+  fw_post f = map (t_single NR) (insL specs xl ++ y :: nil) ->
+  forall t, (t < length specs)%nat -> nth_error (fw_post f) t = Some (t_single NR (nth t (insL specs xl) [])).
+Proof.
+  intros H t Ht. rewrite H. apply map_nth_error. rewrite nth_error_app1 by (rewrite length_insL; exact Ht).
+  apply nth_error_nth'. rewrite length_insL. exact Ht.
+Qed.
+
 Theorem backward_mlp (n : network NR) (specs : list (lspec * vec)) d (xl gl : list R) (f : fwd NR) :
   n_connect n = [] -> n_layers n = map mkL specs ->
   chainedS specs d -> length xl = d -> length gl = lastD specs d ->
   fw_pre f = map (t_single NR) (presL specs xl) ->
-  fw_post f = map (t_single NR) (insL specs xl ++ predL specs xl :: nil) ->
+  (* only the stored layer INPUTS are read, never the prediction *)
+  (forall t, (t < length specs)%nat -> nth_error (fw_post f) t = Some (t_single NR (nth t (insL specs xl) []))) ->
   fw_max f = repeat None (length specs) ->
   let '(gin, gps, gins) := gradsL specs xl gl in
   backward n (t_single NR gl) f = Ok (ws_of specs gps, bs_of specs gps, t_single NR gl :: gs_of gins).
@@ -501,9 +510,7 @@ Proof.
   destruct (gradsL specs xl gl) as [[gin gps] gins].
   change (seq 0 len) with (seq 0 (length specs)). rewrite G.
   - reflexivity.
-  - intros t Ht. cbn [length Nat.add]. rewrite Hpost. rewrite nth_error_map.
-    rewrite nth_error_app1 by (rewrite length_insL; exact Ht).
-    rewrite (nth_error_nth' _ []) by (rewrite length_insL; exact Ht). reflexivity.
+  - intros t Ht. cbn [length Nat.add]. apply Hpost. exact Ht.
   - intros t Ht. cbn [length Nat.add]. rewrite Hpre. apply map_nth_error. apply nth_error_nth'.
     rewrite length_presL. exact Ht.
   - reflexivity.
@@ -669,7 +676,7 @@ Proof.
     pose proof (@backward_mlp (net_at n0 cs t) specs d xl (lof m (mse_gradR m (vof tgl) (vof yl))) f
                   Hc eq_refl Hch_t Hxl
                   ltac:(rewrite length_lof; unfold specs; rewrite (lastD_at_t cs t h0 d); exact Htl)
-                  eq_refl Hpost eq_refl) as Hb.
+                  eq_refl (@posts_lookup f specs xl _ Hpost) eq_refl) as Hb.
     destruct (gradsL specs xl (lof m (mse_gradR m (vof tgl) (vof yl)))) as [[gin gps] gins].
     unfold sample_grad. cbn [fst snd]. rewrite Hf. cbn [bind].
     assert (Elast : last_opt (fw_post f) = Some (t_single NR yl)).
